@@ -33,16 +33,16 @@ func VerifH_C03_int() {
 // readString against the RFC 7541 5.2 reference for every input of up to 12
 // bytes (so every length prefix up to 2^64-1, with at most 11 bytes of string
 // data actually present), raw and Huffman-coded (coded part at most 1 byte
-// quick / 3 thorough): no trap, same accept/reject, same string, same
+// quick / 2 thorough): no trap, same accept/reject, same string, same
 // remaining input.
 //
-//verif:harness prop=C03,C16 unwind=24 timeout=600
+//verif:harness prop=C03,C16 unwind=24 timeout=600 timeoutT=3000
 func VerifH_C03_str() {
 	b := vBytes(vRange(0, 12))
 	pre := vBytes(vRange(0, 1))
 	if len(b) > 0 && b[0]&0x80 != 0 {
 		// Huffman: keep the coded part short (the decoder itself is C15)
-		vAssume(b[0]&0x7f <= byte(vPick(1, 3)))
+		vAssume(b[0]&0x7f <= byte(vPick(1, 2)))
 	}
 	want, used, st := refReadStr(b)
 	rest, dst, err := readString(append([]byte(nil), pre...), b)
